@@ -172,6 +172,8 @@ impl World {
             max_restarts: 0,
             key_seed: mix(self.seed ^ mix(run ^ fxs(stratum))),
             sched_seed: mix(self.seed.wrapping_add(0xABCD) ^ mix(run ^ fxs(stratum))),
+            opts_per_task: false,
+            stack_kib: vec![],
             tasks: vec![],
         }
     }
@@ -205,6 +207,7 @@ impl World {
             u = self.probes[(run as usize + 1) % self.probes.len()];
         }
         p.tasks = vec![t0, self.tasks[i].clone(), self.tasks[u].clone()];
+        p.opts_per_task = run % 2 == 1;
         (p, vec![])
     }
 
@@ -213,6 +216,7 @@ impl World {
         let mut p = self.base("preempt", run);
         let (a, b, k) = self.preempt_list[run as usize];
         p.workers = 2;
+        p.opts_per_task = run % 2 == 1;
         p.tasks = vec![self.tasks[a].clone(), self.tasks[b].clone()];
         let mut script = vec![Action::Dispatch(0)];
         for _ in 1..k {
@@ -234,6 +238,10 @@ impl World {
             _ => GlobalsMode::Epochs,
         };
         p.store = if rng.chance(50) { StoreMode::Shared } else { StoreMode::PerTask };
+        p.opts_per_task = rng.chance(50);
+        if rng.chance(50) {
+            p.stack_kib = (0..p.workers).map(|_| [2048u32, 8192, 65536][rng.below(3)]).collect();
+        }
         let fault_free = rng.chance(30);
         // swarm: which perturbations are enabled in this run
         let en_crash = !fault_free && rng.chance(70);
@@ -312,6 +320,10 @@ impl World {
         p.workers = 1 + (run % 2) as u8;
         p.globals = if run % 3 == 0 { GlobalsMode::PerTask } else { GlobalsMode::Shared };
         p.store = if run % 4 < 2 { StoreMode::Shared } else { StoreMode::PerTask };
+        p.opts_per_task = run % 8 >= 4;
+        if run % 16 >= 8 {
+            p.stack_kib = vec![2048, 8192];
+        }
         let n = if self.thorough { self.pool.len().min(1500) } else { self.pool.len().min(400) };
         let with_crashes = run % 2 == 1;
         // a seeded permutation prefix of the pool
